@@ -100,7 +100,10 @@ def handle (ws : List String) : String :=
   | none => "bad-input"
   | some a =>
     let cpart :=
-      if (cOf a).view == a then
+      -- the C caller's buffers must really hold `ndim` entries each (the views are cut to that length unseen)
+      let nd := a.data.ndim
+      if a.orders.length == nd && a.knots.length == nd && a.smoothNZ.length == nd && a.penalty.length == nd
+          && (cOf a).view == a then
         let r := cGlamfit repaired false false (cOf a) true none
         let n1 := (cGlamfit repaired true false (cOf a) true none).1
         let n2 := (cGlamfit repaired false true (cOf a) true none).1
